@@ -7,7 +7,7 @@
 (*       /    \                                                            *)
 (*      S1    S2          R.b : Optional(Base)   (a reference typed with   *)
 (*       \    /                                   the root class)          *)
-(*        S12                                                              *)
+(*        S12             S3 (a further leaf subclass of Base)              *)
 (* cls[k] is the class object k was created as ("none": no such object).   *)
 (* The session may meet an object first as an unloaded reference typed     *)
 (* Base (navigation R[k].b), by lookup through any class of the hierarchy, *)
@@ -19,7 +19,7 @@ EXTENDS Integers, FiniteSets, TLC
 
 CONSTANTS Ids, MaxLevel
 
-Classes == {"Base", "S1", "S2", "S12"}
+Classes == {"Base", "S1", "S2", "S12", "S3"}        \* S3: a leaf sibling of the diamond
 Sub(c, d) == c = d \/ d = "Base" \/ (c = "S12" /\ d \in {"S1", "S2"})     \* c is d or a subclass of d
 
 VARIABLES cls,     \* committed: id -> class or "none"
@@ -52,10 +52,11 @@ SelAll(c) == /\ sess = "open"
              /\ seen' = seen \cup Members(c)
              /\ ev' = Ev("SelAll", c, 0, "ok", Members(c), "-") /\ UNCHANGED <<cls, cur, sess>>
 
-(* select(x for x in Base if isinstance(x, c)) *)
-IsInst(c) == /\ sess = "open"
-             /\ seen' = seen \cup Members(c)
-             /\ ev' = Ev("IsInst", c, 0, "ok", Members(c), "-") /\ UNCHANGED <<cls, cur, sess>>
+(* select(x for x in c if isinstance(x, d)): objects that are both a c and a d (d is passed in ev.k as an index) *)
+ClassIdx == [i \in 1 .. 5 |-> CASE i = 1 -> "Base" [] i = 2 -> "S1" [] i = 3 -> "S2" [] i = 4 -> "S12" [] i = 5 -> "S3"]
+IsInst(c, i) == /\ sess = "open"
+                /\ seen' = seen \cup (Members(c) \cap Members(ClassIdx[i]))
+                /\ ev' = Ev("IsInst", c, i, "ok", Members(c) \cap Members(ClassIdx[i]), "-") /\ UNCHANGED <<cls, cur, sess>>
 
 (* c.get(id=k): found iff the object is a c; rc = class of the returned object.
    When the session already holds the object and it is not a c, Pony may raise instead of returning None. *)
@@ -74,7 +75,7 @@ RefClass(k) == /\ sess = "open" /\ cur[k] # "none"
 
 Next == \/ Begin \/ End
         \/ \E c \in Classes, k \in Ids : Create(c, k) \/ Find(c, k)
-        \/ \E c \in Classes : SelAll(c) \/ IsInst(c)
+        \/ \E c \in Classes : SelAll(c) \/ \E i \in 1 .. 5 : IsInst(c, i)
         \/ \E k \in Ids : RefClass(k)
 
 Spec == Init /\ [][Next]_vars
@@ -82,6 +83,7 @@ Bounded == TLCGet("level") <= MaxLevel
 
 (* properties of the specification itself *)
 ClassPreserved == Assert(\A k \in Ids : cls[k] # "none" => cls'[k] = cls[k], "an object changed its class")
-PolymorphicExact == ev.op \in {"SelAll", "IsInst"} => \A k \in Ids : (k \in ev.ret) <=> (cur[k] # "none" /\ Sub(cur[k], ev.c))
+PolymorphicExact == /\ ev.op = "SelAll" => \A k \in Ids : (k \in ev.ret) <=> (cur[k] # "none" /\ Sub(cur[k], ev.c))
+                    /\ ev.op = "IsInst" => \A k \in Ids : (k \in ev.ret) <=> (cur[k] # "none" /\ Sub(cur[k], ev.c) /\ Sub(cur[k], ClassIdx[ev.k]))
 DiamondIsBoth == \A k \in Ids : cur[k] = "S12" => (Sub(cur[k], "S1") /\ Sub(cur[k], "S2"))
 =============================================================================
